@@ -85,7 +85,8 @@ LEVEL_NOTE = ('Trusted: CPython, the test-side truthful resolver and instrumente
 #   no_store_to_var_captured_by_callee  a statement does not store to a variable captured by a local function it calls
 #                                       (F33_closure_types_taken_after_the_calling_statement)
 EXCL = ('no_unknown_store_to_typed_name', 'no_for_target_typed', 'no_augassign_typed', 'no_nonlocal_retype',
-        'no_child_capture_of_nonlocal_bound', 'no_sibling_local_calls', 'no_starred_target',
+        'no_sibling_local_calls', 'no_starred_target',  # no_child_capture_of_nonlocal_bound: F21c fixed in /repo
+
         'no_store_to_var_captured_by_callee')
 
 # ----------------------------------------------------------------------------------------------
